@@ -1,11 +1,11 @@
 #!/usr/bin/env python3
-"""usage: keep_seed.py <Cxx> <a|b> <caught_by comma list or ''> [note]
-Copies a confirmed seeded change from /tmp/wt/out-<Cxx>/<v>/ to /verif/seeded/<Cxx>-<v>/ and writes meta.json."""
+"""usage: keep_seed.py <src-dir> <seed-id> <property> <caught_by comma list or ''> [note]
+Copies a confirmed seeded change (patch.diff, demo.rs, meta.json written by the sub-agent, confirm.txt written by
+tools/confirm_seed.sh) to /verif/seeded/<seed-id>/ and writes its meta.json."""
 import json, os, shutil, sys
-pid, v, caught = sys.argv[1], sys.argv[2], sys.argv[3]
-note = sys.argv[4] if len(sys.argv) > 4 else ""
-src = f"/tmp/wt/out-{pid}/{v}"
-dst = f"/verif/seeded/{pid}-{v}"
+src, sid, prop, caught = sys.argv[1], sys.argv[2], sys.argv[3], sys.argv[4]
+note = sys.argv[5] if len(sys.argv) > 5 else ""
+dst = f"/verif/seeded/{sid}"
 os.makedirs(dst, exist_ok=True)
 shutil.copy(f"{src}/patch.diff", f"{dst}/patch.diff")
 shutil.copy(f"{src}/demo.rs", f"{dst}/demo.rs")
@@ -17,11 +17,12 @@ except Exception:
 confirm = open(f"{src}/confirm.txt").read().strip().splitlines() if os.path.exists(f"{src}/confirm.txt") else []
 demo_with = open(f"{src}/demo_with.txt").read() if os.path.exists(f"{src}/demo_with.txt") else ""
 meta = {
-    "property": pid,
-    "variant": v,
+    "seed_id": sid,
+    "property": prop,
     "breaks": agent.get("summary", ""),
     "needs_to_manifest": agent.get("needs_to_manifest", ""),
     "files_changed": agent.get("files_changed", []),
+    "written_by": "a fresh sub-agent that was given only the property text and a scratch worktree of /repo",
     "demo_install": "cp demo.rs <repo>/tests/test/verif_demo.rs && echo 'mod verif_demo;' >> <repo>/tests/test/mod.rs",
     "demo_run": "cargo nextest run --offline --no-fail-fast -E 'test(verif_demo)'",
     "confirmed_by_me": {
@@ -30,7 +31,7 @@ meta = {
         "demo_with_change_tail": demo_with[-600:],
     },
     "caught_by": [c for c in caught.split(",") if c],
-    "how_checked": "tools/try_seed.sh <patch> quick <checks>: git -C /repo apply, ./check <id> quick, git -C /repo checkout -- .",
+    "how_checked": "tools/try_seed.sh <patch> quick <checks>: git -C /repo apply, ./check <id> quick, git -C /repo checkout -- . (and tools on the development bench at seeds 1-3, see DESIGN.md 10.4)",
     "note": note,
 }
 json.dump(meta, open(f"{dst}/meta.json", "w"), indent=1)
